@@ -269,6 +269,7 @@ def handleC06 (fields : List String) : Verdict :=
 /-- `free|<gen tree>|<parser tree>|<vars ids>|<free ids>|<raw2free: id=idx,…>|<result or ->` -/
 def handleC09 (fields : List String) : Verdict :=
   match fields with
+  | "eval" :: rest => handleEval true rest   -- only written when an evaluation did not return
   | ["free", gen, real, vars, free, r2f, result] =>
     match parseFormula gen, parseFormula real, parseNats vars, parseNats free with
     | some g, some rf, some vars, some free =>
